@@ -9,6 +9,7 @@ from sim import case as C
 from sim import gen, fjmodel, kernel
 
 MODEL_CAP = 2000
+CANDIDATE_TIMEOUT_S = 10
 
 
 def cfg_name(cfg):
@@ -131,12 +132,21 @@ def _still_fails(cand, want, fields, model_cap):
         return None
     except Exception:
         return None
+    # a reduced candidate may send a defective engine into an endless loop: every candidate runs under its own wall
+    # limit, and one that exceeds it simply does not count as "still failing the same way"
+    import signal
+    import time
+    t0 = time.monotonic()
+    outer = signal.setitimer(signal.ITIMER_REAL, CANDIDATE_TIMEOUT_S)
     try:
         vs, _ = evaluate(cand, fields, path=C_path, model_cap=model_cap)
     except kernel.WatchdogTimeout:
-        raise
+        return None
     except Exception:
         return None
+    finally:
+        # (an enclosing limit keeps counting: re-arm what is left of it)
+        signal.setitimer(signal.ITIMER_REAL, max(0.01, outer[0] - (time.monotonic() - t0)) if outer[0] else 0)
     for v in vs:
         if (v['clause'], cfg_class(v['config'])) == want:
             return v
